@@ -42,6 +42,9 @@ def gen_program(rng, profile, index=None):
     base = profile.split('-')[0]
     T = rng.choice([0.125, 1.0])
     counter = [0]
+    T_real = T
+    if base in ('c03', 'c08') and rng.random() < 0.12:
+        T_real = 0.0            # the grids below keep using a non-zero unit
 
     def elems(n):
         out = list(range(counter[0], counter[0] + n))
@@ -55,6 +58,9 @@ def gen_program(rng, profile, index=None):
         op = {'op': kind}
         if kind == 'call':
             op['elems'] = elems(1)
+            if base == 'c08' and counter[0] > 1 and rng.random() < 0.2:
+                op['elems'] = [rng.randrange(counter[0] - 1)]       # an argument that was submitted before (sets collapse it)
+                op['dup'] = True
         elif kind == 'await':
             op['elems'] = elems(1)
             op['delay'] = _w(rng, [(0.0, 4), (T / 2, 2), (T + Q, 2), (2 * T, 1)])
@@ -137,14 +143,19 @@ def gen_program(rng, profile, index=None):
                     ft = fops[-1]['at']
             if fops:
                 foreign.append(fops)
+    if base == 'c08' and not foreign and rng.random() < 0.2 and ops:
+        tw = ops[rng.randrange(len(ops))]['at'] + _w(rng, [(0.0, 2), (T / 2, 2), (Q, 1)])
+        foreign.append([{'op': 'wait_anywhere', 'at': tw, 'cancel': False}])
     func = []
     for i in range(6):
         fail = rng.random() < (0.25 if not profile.endswith('-nofail') else 0.0)
         if fail and rng.random() < 0.25:
             fail = 'cancelled'
         func.append({'dur': _w(rng, [(0.0, 5), (T / 2, 3), (T + Q, 2), (2 * T, 1)]), 'fail': fail})
-    prog = {'world': 'buffer', 'profile': profile, 'T': T, 'ops': ops, 'foreign': foreign, 'func': func,
-            'form': _w(rng, [('direct', 5), ('deco', 3), ('bare', 2)]) if T == 1.0 else _w(rng, [('direct', 6), ('deco', 4)])}
+    prog = {'world': 'buffer', 'profile': profile, 'T': T_real, 'ops': ops, 'foreign': foreign, 'func': func,
+            # (2) the wrapped callable may be an ordinary function returning an awaitable that is not a coroutine
+            'func_form': _w(rng, [('async', 6), ('returns_task', 2), ('returns_future', 1)]),
+            'form': _w(rng, [('direct', 5), ('deco', 3), ('bare', 2)]) if T_real == 1.0 else _w(rng, [('direct', 6), ('deco', 4)])}
     if base == 'c03' and rng.random() < 0.3:
         prog['final'] = 'sleep'         # no closing wait(): "eventually" must not depend on somebody waking the loop
     if base in ('c03', 'c08') and rng.random() < 0.3:
@@ -402,15 +413,29 @@ class BufferWorld:
                           f'elements {missing} of submission {sub.sid} ({sub.op["op"]}, submitted t={sub.t}) not yet in a '
                           f'successful call', kind=sub.op['op'], thread=str(W.thread))
 
+    def wrapped(self):
+        form = self.prog.get('func_form', 'async')
+        if form == 'async':
+            return self.func
+        if form == 'returns_task':
+            def func_task(inputs):
+                return asyncio.get_running_loop().create_task(self.func(inputs))
+            return func_task
+
+        def func_future(inputs):
+            return asyncio.ensure_future(asyncio.gather(self.func(inputs)))
+        return func_future
+
     def make_buffers(self):
         aa = self.aa
         p = self.prog
+        f = self.wrapped()
         if p['form'] == 'direct':
-            self.buf = aa.buffer_until_timeout(self.func, timeout=self.T)
+            self.buf = aa.buffer_until_timeout(f, timeout=self.T)
         elif p['form'] == 'deco':
-            self.buf = aa.buffer_until_timeout(timeout=self.T)(self.func)
+            self.buf = aa.buffer_until_timeout(timeout=self.T)(f)
         else:
-            self.buf = aa.buffer_until_timeout(self.func)          # default timeout == 1
+            self.buf = aa.buffer_until_timeout(f)          # default timeout == 1
         if p.get('bystander'):
             self.buf2 = aa.buffer_until_timeout(self.func2, timeout=p['bystander']['T'])
             for o in p['bystander']['ops']:
@@ -439,7 +464,7 @@ class BufferWorld:
                 sch.sleep(op['at'] - sch.clock)
             self.submit('owner', op)
         horizon = max([o['at'] for o in p['ops']] + [o['at'] for o in (p.get('bystander') or {}).get('ops', ())] + [0.0]) \
-            + 4 * max(self.T, (p.get('bystander') or {}).get('T', 0.0)) + sum(f['dur'] + self.T for f in p['func']) \
+            + 1.0 + 4 * max(self.T, (p.get('bystander') or {}).get('T', 0.0)) + sum(f['dur'] + self.T for f in p['func']) \
             + sum(sum(o.get('delays', ())) for o in p['ops'])
         self.phase = 'final-sleep'
         if horizon > sch.clock:
@@ -481,7 +506,7 @@ class BufferWorld:
             # failing invocation's retry and the quiet period.
             allops = p['ops'] + [x for fo in p['foreign'] for x in fo]
             by = p.get('bystander') or {}
-            horizon = max([o['at'] for o in allops] + [o['at'] for o in by.get('ops', ())] + [0.0]) + 4 * max(self.T, by.get('T', 0.0)) \
+            horizon = max([o['at'] for o in allops] + [o['at'] for o in by.get('ops', ())] + [0.0]) + 1.0 + 4 * max(self.T, by.get('T', 0.0)) \
                 + sum(f['dur'] + self.T for f in p['func']) + sum(
                 sum(o.get('delays', ())) + o.get('delay', 0.0) for o in allops)
             self.phase = 'final-sleep'
@@ -684,6 +709,10 @@ class BufferWorld:
     # ----------------------------------------------------------------- C08
     def judge_c08(self):
         T = self.T
+        if T <= 0:
+            # timeout 0 = "flush at once": every arrival ties with its own timer, the timing clauses have nothing to judge
+            # (overlap, empty-set, crosstalk and loss checks above stay on)
+            return
         arrivals = sorted((s.t, s.sid) for s in self.subs)
         times = [t for t, _ in arrivals]
         # a forced flush (wait(cancel=True)) suspends the debounce claims while it is pending
